@@ -27,11 +27,12 @@ theorem panic_sites_accounted :
 
 /-- the source today is the repaired source: checked assertions in dpop.go and key.go, nil guards on verification
     methods, a bounded hash chain in bucketIndices with k capped at the number of buckets.  `withCallbackURI` still
-    asserts unchecked (unreachable at its call sites: `callback_total_in_handler`). -/
+    asserts unchecked (unreachable at its call sites: `callback_total_in_handler`); handleAuthorizeResponseSubmission rejects
+    an envelope without presentations before validatePresentationNonce indexes `nonces[0]`. -/
 theorem fact_cfg_is_fixed :
     Sites.dpopCfg = Dpop.Cfg.fixed ∧ Sites.resolverCfg = Resolver.Cfg.fixed ∧
     Sites.ibltCfg = { k := 6, chainBounded := true, maxChain := 64 } ∧ Facts.C19.bucketIndicesCapsK = true ∧
-    Sites.callbackCfg = { assertChecked := false } := by decide
+    Sites.callbackCfg = { assertChecked := false, envelopeGuard := true } := by decide
 
 /-- constants the models use -/
 theorem fact_constants :
@@ -333,14 +334,27 @@ theorem callback_standalone_partial (m : String) :
 /-- … but in handleAuthorizeResponseSubmission it is never reached with such an error, for ANY list of presentations:
     `validatePresentationAudience` returns the raw ParseLDProof error only for a JSON-LD presentation whose proof does not
     parse, and `validatePresentationNonce` — which runs first and calls the same (deterministic) ParseLDProof through
-    extractChallenge — has then already returned an OAuth2Error.  So candidate #21 is NOT a reachable defect; holds even with
-    the unchecked assertion (any Cfg). -/
-theorem callback_total_in_handler (c : Callback.Cfg) (ps : List (Callback.Pres × Bool)) (storeOk : Bool) :
-    ∀ s, Callback.handleSubmission c ps storeOk ≠ .panic s := handleSubmission_no_panic c ps storeOk
+    extractChallenge — has then already returned an OAuth2Error.  So candidate #21 is NOT a reachable defect (holds with the
+    unchecked assertion).  The handler's other partial operation, `nonces[0]` in validatePresentationNonce, is in range
+    because an envelope without presentations is rejected first (`envelopeGuard`, a regenerated fact). -/
+theorem callback_total_in_handler (ps : List (Callback.Pres × Bool)) (storeOk : Bool) :
+    (∀ c : Callback.Cfg, c.envelopeGuard = true → ∀ s, Callback.handleSubmission c ps storeOk ≠ .panic s) ∧
+    (∀ s, Callback.handleSubmission Sites.callbackCfg ps storeOk ≠ .panic s) :=
+  ⟨fun c hg => handleSubmission_no_panic c hg ps storeOk,
+   handleSubmission_no_panic _ (by rw [fact_cfg_is_fixed.2.2.2.2]) ps storeOk⟩
+
+/-- WITHOUT that guard the empty envelope (`vp_token=[]`, which pe.ParseEnvelope accepts) panics: the loop over zero
+    presentations collects no error and `nonces[0]` indexes an empty slice -/
+theorem callback_empty_envelope_needs_guard (c : Callback.Cfg) (hg : c.envelopeGuard = false) (storeOk : Bool) :
+    Callback.handleSubmission c [] storeOk = .panic "validatePresentationNonce:nonces[0]" := by
+  simp [Callback.handleSubmission, hg, Callback.validatePresentationNonce, Callback.noncesOf]
 
 /-- non-vacuity: the malformed-proof presentation is answered with an OAuth2 error by the nonce check -/
 example : Callback.handleSubmission { assertChecked := false }
     [({ format := .jsonld, ldProofOk := false, nonce := "", audOk := false }, true)] true = .ok (some (.oauth2 "invalid_request")) := by decide
+example : Callback.handleSubmission { assertChecked := false } [] true = .ok (some (.oauth2 "invalid_request")) := by decide
+example : Callback.handleSubmission { assertChecked := false }
+    [({ format := .jwt, ldProofOk := true, nonce := "n", audOk := true }, true)] true = .ok none := by decide
 /-- and the audience check alone WOULD hand withCallbackURI a raw error -/
 example : Callback.audienceLoop { assertChecked := false }
     [({ format := .jsonld, ldProofOk := false, nonce := "n", audOk := false }, true)] = .panic "withCallbackURI:err.(oauth.OAuth2Error)" := by decide
